@@ -24,7 +24,8 @@ EXTENDS Integers, Sequences, FiniteSets, TLC, Json
 CONSTANTS Mods,          \* module names
           Imports,       \* [Mods -> sequence of directly imported modules]   (acyclic)
           Targets,       \* sequence of modules given to the runner, in order
-          Variants,      \* e.g. 1..2
+          Variants,      \* e.g. 1..3
+          BodyOf,        \* [Variants -> class]: variants in one class differ in layout only (same emitted text, other file hash)
           MaxOps,
           MaxTorn,       \* max number of cache files damaged by an interrupted write
           TransitiveKey, \* FALSE = as coded
@@ -52,12 +53,12 @@ RECURSIVE Closure(_)
 Closure(m) == {m} \cup UNION {Closure(d) : d \in SeqSet(Imports[m])}
 
 \* what a cold run derives for m from the current sources
-Cold(m) == [d \in Closure(m) |-> src[d]]
+Cold(m) == [d \in Closure(m) |-> BodyOf[src[d]]]
 
 \* symbol cache key as coded: own + direct imports (or the whole closure when TransitiveKey)
 SymKey(m) == IF TransitiveKey THEN [d \in Closure(m) |-> src[d]]
              ELSE [d \in {m} \cup SeqSet(Imports[m]) |-> src[d]]
-Hdr(m) == IF DeepHeader THEN Cold(m) ELSE [d \in {m} |-> src[m]]
+Hdr(m) == IF DeepHeader THEN [d \in Closure(m) |-> src[d]] ELSE [d \in {m} |-> src[m]]
 
 -----------------------------------------------------------------------------
 (* One process: Modules.load over the targets, as a fold.  Process state:   *)
@@ -93,7 +94,7 @@ Preprocess(ps, m, enabled) ==
   ELSE IF enabled /\ ps.s[m] # None /\ ps.s[m].key = SymKey(m)
        THEN IF ps.s[m].torn THEN [ps EXCEPT !.err = "fail", !.reads = TRUE]
             ELSE [ps EXCEPT !.db = Merge((m :> ps.s[m].built), @), !.reads = TRUE]
-       ELSE LET built == Merge((m :> src[m]), MergeAll(ps.db, Imports[m]))
+       ELSE LET built == Merge((m :> BodyOf[src[m]]), MergeAll(ps.db, Imports[m]))
                 ps1 == [ps EXCEPT !.db = Merge((m :> built), @)]
             IN IF (enabled \/ ~StoreGated) /\ (ps.s[m] = None \/ ps.s[m].key # SymKey(m))
                THEN [ps1 EXCEPT !.s[m] = [key |-> SymKey(m), built |-> built, torn |-> FALSE], !.writes = TRUE]
